@@ -27,7 +27,7 @@ RULE = (
 CLASSES = [
     "int_float_same_key", "bool_int_same_key", "neg_zero", "list_values", "partial_key",
     "scalar_vs_mapping", "empty_mapping_leaf", "subset_ids", "subset_jobs", "subset_unknown_id",
-    "exclude_const_hit", "diff_0", "diff_1", "diff_many", "zero_jobs", "one_job", "removed_after_warm_up",
+    "exclude_const_hit", "diff_0", "diff_1", "diff_many", "zero_jobs", "one_job", "removed_after_warm_up", "caller_modified_statepoint_copy",
 ]
 ASSUMPTIONS = [
     "schema values are grouped by exact Python type (bool, int, float, str, tuple for lists, NoneType)",
@@ -77,6 +77,7 @@ def cases(draw):
         "subset_kind": draw(st.sampled_from(["ids", "jobs"])),
         "exclude_const": draw(st.booleans()),
         "removed": draw(st.lists(st.integers(0, 8), max_size=2)) if draw(st.integers(0, 3)) == 0 else [],
+        "scribble": draw(st.booleans()),
         "diffs": diffs,
     }
 
@@ -90,6 +91,17 @@ def leaves(sp):
     for k, v in oracle.flatten(sp).items():
         out[k] = EMPTY if (isinstance(v, dict) and not v) else v
     return out
+
+
+def _scribble(v):
+    if isinstance(v, dict):
+        for x in list(v.values()):
+            _scribble(x)
+        v["scribbled_by_caller"] = 1
+    elif isinstance(v, list):
+        for x in v:
+            _scribble(x)
+        v.append("scribbled_by_caller")
 
 
 def frozen(v):
@@ -277,6 +289,14 @@ def run_case(case, ctx):
         sub = [i % n for i in sub if isinstance(i, int)] if n else []
         jobs = [project.open_job(id=ids[i]) for i in sub]
         cl.add({0: "diff_0", 1: "diff_1"}.get(len(set(sub)), "diff_many"))
+        if case.get("scribble"):
+            # the caller took job.statepoint() (a copy it may modify) of every job before and changed it
+            cl.add("caller_modified_statepoint_copy")
+            for j in jobs:
+                try:
+                    _scribble(j.statepoint())
+                except Exception:
+                    pass
         try:
             got = signac.diff_jobs(*jobs)
         except Exception as e:
